@@ -312,6 +312,14 @@ class MasterWorld:
 
     # -- events -------------------------------------------------------------
     def apply(self, ev):
+        try:
+            self._apply(ev)
+        finally:
+            m = getattr(self, 'master', None)
+            if m is not None and getattr(m, 'cell', None) is not None:
+                cellworld.normalise_hidden(m.cell)
+
+    def _apply(self, ev):
         if self.dead:
             raise AssertionError('world is dead')
         CLOCK.next_event()
@@ -770,7 +778,8 @@ class MasterWorld:
             tree.find(z.ALLOCATIONS).data,
             tuple(sorted((g, tree.find(z.path.identity_group(g)).data)
                          for g in self.children(z.IDENTITY_GROUPS))),
-            tuple(sorted(self.children(z.EVENTS))),
+            tuple(sorted((e, tree.find(z.path.event(e)).data)
+                         for e in self.children(z.EVENTS))),
             tuple(self.children(z.CELL)),
             tuple(sorted(self.children(z.BLACKEDOUT_SERVERS))),
             tuple(sorted(self.truth.items())), self.bl_idx,
@@ -782,5 +791,10 @@ class MasterWorld:
         m = self.master
         und = tuple((p, tuple(ren(k) if '#' in k else k for k in kids))
                     for p, kids in self.undelivered)
-        return (zk, und, cellworld.canon_cell(m.cell, self.tmpl_of), m.up_to_date,
+        roots = [b for b in m.buckets.values()
+                 if b.parent is None and b is not m.cell]
+        roots += [sv for sv in m.servers.values() if sv.parent is None]
+        return (zk, und,
+                cellworld.canon_cell(m.cell, self.tmpl_of, roots),
+                m.up_to_date,
                 tuple(sorted(m.servers)), tuple(m.apps_blacklist), CLOCK.L)
